@@ -7,6 +7,6 @@ git -C /repo archive HEAD dinosaur | tar -x -C $S
 cp -r /repo/dinosaur/*.py $S/dinosaur/    # include uncommitted working-tree edits, if any
 ( cd $S && patch -p1 -s < "$OLDPWD/seeded/$d/patch.diff" ) || { echo "PATCH FAILED"; rm -rf $S; exit 9; }
 cd "$(dirname "$0")/.."
-DINOSAUR_REPO=$S VERIF_EVIDENCE_DIR=$S/evidence ./check $prop "$@" 2>&1 | grep -E "VIOLATION|UNDECIDED|ENGINE-ERROR|^OK|failed obligation" | cut -c1-300 | head -12
+DINOSAUR_REPO=$S VERIF_EVIDENCE_DIR=$S/evidence ./check $prop "$@" 2>&1 | grep -E "VIOLATION|UNDECIDED|ENGINE-ERROR|^OK|failed obligation" | cut -c1-300 | awk '/VIOLATION/ && v++ < 3 || /ENGINE-ERROR|UNDECIDED|^OK/ || /failed obligation/ && n++ < 6'
 echo "exit=${PIPESTATUS[0]}"
 rm -rf $S
